@@ -255,7 +255,7 @@ AbsTx(t) ==
 
 RenHeader(t) ==
     LET s0 == Lit(Empty, DateStr(t.date), "date")
-        s1 == IF Len(t.date2) = 0 THEN s0 ELSE Lit(Lit(s0, "=", ""), DateStr(t.date2[1]), "date2")
+        s1 == IF Len(t.date2) = 0 THEN s0 ELSE Lit(Lit(s0, "=", "operator"), DateStr(t.date2[1]), "date2")
         s2 == IF t.st = "" THEN s1 ELSE Lit(Sp(s1, 1), t.st, "status")
         s3 == IF t.code = 0 THEN s2 ELSE Lit(Put(Lit(Sp(s2, 1), "(", ""), Codes[t.code], "codetext"), ")", "")
         s3b == IF t.code = 0 THEN s3
